@@ -65,6 +65,17 @@ def _vec_truncate(ctx, args, ck):
     return None
 
 
+@model('Vec::split_off')
+def _vec_split_off(ctx, args, ck):
+    v = as_vec(ctx, args[0])
+    n = ctx.concretize(args[1], 0, len(v.items) + 1)
+    if n is None:
+        raise RustPanic('`at` split index out of bounds', 'index')
+    tail = VecObj(list(v.items[n:]))
+    del v.items[n:]
+    return tail
+
+
 @model('Vec::insert')
 def _vec_insert(ctx, args, ck):
     v = as_vec(ctx, args[0])
